@@ -20,6 +20,7 @@ open Proto Load
           <expfiles|-> <mcfiles|->      one load of a history on a shared Config
         -> cfg=<cfg['datafields'] after the load> ok exp=… mc=… | cfg=… err <class>
       keepf <dpExp,dpMc,anExp,anMc> <cfgFields> <dsFields> <expRen> <mcRen> <keep>  -> exp=<names> mc=<names>
+      rename <names> <old:new,…>   -> ok name:source-index,… | err <class>     (rename_fields, any dictionary)
       orcheck <stage> <stages>  -> 0|1
 -/
 
@@ -69,7 +70,8 @@ def pPrep (s : String) : List (PrepOp String) :=
 def fErr : Err → String
   | .fileMissing => "fileMissing" | .keyError => "keyError" | .indexError => "indexError"
   | .uninit => "uninit" | .noColumns => "noColumns" | .schemaMismatch => "schemaMismatch"
-  | .noLivetime => "noLivetime"
+  | .noLivetime => "noLivetime" | .castKind => "castKind" | .castOverflow => "castOverflow"
+  | .zeroDivision => "zeroDivision"
 
 def fArr (a : A) : String :=
   String.intercalate "/" (toString a.len :: a.cols.map (fun c =>
@@ -85,9 +87,9 @@ def loader (fmt : String) (mode : Mode) (bs : Nat) (fs : Nat → Option F) :
     List Nat → Opts String DT → Except Err A :=
   fun paths o =>
     match fmt with
-    | "parquet" => parquetLoad castCell fs paths o
-    | "csv" => csvLoad castCell promoteDT fs paths o
-    | _ => npyLoad castCell promoteDT mode fs bs paths o
+    | "parquet" => parquetLoad castCopyCell fs paths o
+    | "csv" => csvLoad castCopyCell castCell promoteDT DT.f8 fs paths o
+    | _ => npyLoad castCopyCell castAssignCell castCell promoteDT mode fs bs paths o
 
 def pStages (s : String) : Stages :=
   match pList pN s with
@@ -128,6 +130,12 @@ def answer (line : String) : String :=
   | ["keepf", st, cfgF, dsF, eRen, mRen, keep] =>
     let c : DsCfg String DT := ⟨pTable cfgF, pTable dsF, pRen eRen, pRen mRen, pList id keep, [], none⟩
     s!"exp={fListD id (keepExp (pStages st) c)} mc={fListD id (keepMc (pStages st) c)}"
+  | ["rename", names, ren] =>
+    -- DataFieldRecordArray.rename_fields on fields `names` (field i holds the single cell i)
+    let cols : List (Col String DT Int) := (pList id names).zipIdx.map (fun p => ⟨p.1, DT.i8, [Int.ofNat p.2]⟩)
+    match renameFields (pRen ren) (⟨cols, 1⟩ : A) with
+    | .ok a => "ok " ++ fListD (fun (c : Col String DT Int) => s!"{c.name}:{fList (fun (v : Int) => toString v) c.cells}") a.cols
+    | .error e => "err " ++ fErr e
   | ["orcheck", a, b] => fB (orCheck (pN a) (pN b))
   | _ => "bad-op"
 
